@@ -370,7 +370,7 @@ class SourceMap:
         max_old_offset = max(new_mapping.keys())
 
         for m in self._mappings_macros.values():
-            if m.return_addr:
+            if m.return_addr is not None:
                 addr: int | None = m.return_addr
                 while addr not in new_mapping:
                     # if the return addr opcode was optimized away, we take the next index. TODO: Good idea?
